@@ -81,6 +81,10 @@ type vStep struct {
 	Key   string `json:"key"`
 	K     int    `json:"k"`
 	Sel   *vSel  `json:"sel"`
+	Loc   *vSel  `json:"loc"`
+	Form  string `json:"form"`
+	Mut   string `json:"mut"`
+	Via   string `json:"via"`
 	DropR bool   `json:"dropr"`
 	DropQ bool   `json:"dropq"`
 	Obs   *vObs  `json:"obs"`
@@ -127,6 +131,9 @@ func c05Contract(ref string) string {
     access(all) fun popA(): Inner { return self.a.removeLast() }
     access(all) fun delD(_ key: String) { self.d.remove(key: key) }
     access(all) fun clone(): Outer { return self }
+    access(all) fun getI(): Inner { return self.i }
+    access(all) fun getA(): [Inner] { return self.a }
+    access(all) fun getD(): {String: Inner} { return self.d }
   }
   access(all) fun id(_ o: Outer): Outer { return o }
   // the callee mutates the copy it received
@@ -306,8 +313,74 @@ func outerValue(name string) string {
 	return name
 }
 
-func c05RenderOp(s vStep) string {
+// tempMut: mutate the value of a transfer expression that is not bound to anything, directly or
+// through a reference taken to the temporary.
+func c05RenderTemp(s vStep, P string) string {
+	var expr, typ, auth string
+	switch s.Form {
+	case "copySt":
+		expr, typ = fmt.Sprintf("acct.storage.copy<T.Outer>(from: /storage/%s)!", s.Path), "T.Outer"
+	case "ret":
+		typ = "T.Outer"
+		if s.Root == "r" {
+			expr = "r!.clone()"
+		} else {
+			expr = fmt.Sprintf("T.id(%s)", s.Root)
+		}
+	case "getI":
+		expr, typ = oRoot(s.Root)+".getI()", "T.Inner"
+	case "getA":
+		expr, typ, auth = oRoot(s.Root)+".getA()", "[T.Inner]", "auth(Mutate) "
+	case "getD":
+		expr, typ, auth = oRoot(s.Root)+".getD()", "{String: T.Inner}", "auth(Mutate) "
+	case "derefXs":
+		typ, auth = "["+P+"]", "auth(Mutate) "
+		if s.Root == "r" || s.Root == "q" {
+			// a member read through a reference already is a reference
+			expr = fmt.Sprintf("*(%s.xs)", innerPlace(s.Root, s.Loc))
+		} else {
+			expr = fmt.Sprintf("*(&%s.xs as &[%s])", innerPlace(s.Root, s.Loc), P)
+		}
+	default:
+		panic("tempMut: unknown form " + s.Form)
+	}
+	if s.Via == "ref" {
+		expr = fmt.Sprintf("(&%s as %s&%s)", expr, auth, typ)
+	} else {
+		expr = "(" + expr + ")"
+	}
+	if s.Sel != nil && s.Sel.F != "-" {
+		switch s.Form {
+		case "getA":
+			expr += fmt.Sprintf("[%d]", s.Sel.J)
+		case "getD":
+			expr += fmt.Sprintf("[%q]!", s.Sel.Key)
+		default:
+			expr += selSuffix(s.Sel)
+		}
+	}
+	switch s.Mut {
+	case "setP":
+		return fmt.Sprintf("%s.setP(%d)", expr, s.K)
+	case "setX":
+		return fmt.Sprintf("%s.setX(%d)", expr, s.K)
+	case "push":
+		if s.Form == "derefXs" {
+			return fmt.Sprintf("%s.append(T.enc(%d))", expr, s.K)
+		}
+		return fmt.Sprintf("%s.push(%d)", expr, s.K)
+	case "pop":
+		return expr + ".removeLast()"
+	case "del":
+		return fmt.Sprintf("%s.remove(key: %q)", expr, s.Key)
+	}
+	panic("tempMut: unknown mutation " + s.Mut)
+}
+
+func c05RenderOp(s vStep, P string) string {
 	switch s.Op {
+	case "tempMut":
+		return c05RenderTemp(s, P)
 	case "newO":
 		return fmt.Sprintf("%s = T.Outer(%d)", s.V, s.K)
 	case "newI":
@@ -373,7 +446,7 @@ func c05RenderOp(s vStep) string {
 	panic("c05RenderOp: unknown op " + s.Op)
 }
 
-func c05RenderTx(n c05names, steps []vStep) string {
+func c05RenderTx(n c05names, steps []vStep, P string) string {
 	var sb strings.Builder
 	sb.WriteString("import T from 0x1\ntransaction {\n  prepare(acct: auth(Storage) &Account) {\n")
 	for _, v := range n.os {
@@ -392,7 +465,7 @@ func c05RenderTx(n c05names, steps []vStep) string {
 		case "abort":
 			sb.WriteString("    panic(\"abort\")\n")
 		default:
-			sb.WriteString("    " + c05RenderOp(s))
+			sb.WriteString("    " + c05RenderOp(s, P))
 			if s.DropR {
 				sb.WriteString("; r = nil")
 			}
@@ -430,6 +503,9 @@ func c05Replay(b *vBeh, ref, engine string) *Fail {
 			if s.Sel != nil {
 				f.Sig["sel"] = s.Sel.F
 			}
+			if s.Op == "tempMut" {
+				f.Sig["form"], f.Sig["mut"], f.Sig["via"] = s.Form, s.Mut, s.Via
+			}
 		}
 		return f
 	}
@@ -463,7 +539,11 @@ func c05Replay(b *vBeh, ref, engine string) *Fail {
 		if s.Op != "commit" && s.Op != "abort" {
 			continue
 		}
-		src := c05RenderTx(names, cur)
+		P := "Int"
+		if ref == "str" {
+			P = "String"
+		}
+		src := c05RenderTx(names, cur, P)
 		res := w.Tx(src, signers, useVM)
 		if host.IsInternal(res.Class) {
 			return mk("internal", si, &s, res.Class+": "+res.Err.Error(), src)
@@ -525,7 +605,8 @@ func c05Replay(b *vBeh, ref, engine string) *Fail {
 }
 
 func describe(s vStep) string {
-	b, _ := json.Marshal(map[string]any{"op": s.Op, "v": s.V, "src": s.Src, "root": s.Root, "sel": s.Sel, "k": s.K, "path": s.Path, "key": s.Key})
+	b, _ := json.Marshal(map[string]any{"op": s.Op, "v": s.V, "src": s.Src, "root": s.Root, "sel": s.Sel, "k": s.K, "path": s.Path, "key": s.Key,
+		"form": s.Form, "mut": s.Mut, "via": s.Via, "loc": s.Loc})
 	return string(b)
 }
 
